@@ -1,6 +1,7 @@
 import TTProofs.Lemmas.C08_Main
 import TTProofs.Lemmas.C08_Scaling
 import TTProofs.Lemmas.C08_Examples
+import Mathlib.Data.List.Count
 /-!
 # C08 — coalescent priors equal the Kingman density of their demographic function
 
@@ -281,6 +282,50 @@ theorem skygrid_all_equal_is_constant (θ₀ : ℝ) (grid : List ℝ) {samp coal
 example : skygridLogProb (List.replicate 3 7) [1 / 2, 5] (([0, 0, 1] : List ℝ) ++ [2, 3])
     = constantLogProb 7 ([0, 0, 1] ++ [2, 3]) :=
   skygrid_all_equal_is_constant 7 [1 / 2, 5] rfl young (by simp; norm_num)
+
+/-- **skyride_all_equal_is_constant** — a skyride whose pieces are all equal is the constant model (every
+sampling time strictly below some coalescent time, as in any tree with positive branch lengths). -/
+theorem skyride_all_equal_is_constant (θ₀ : ℝ) {samp coal : List ℝ}
+    (hlen : samp.length = coal.length + 1) (hnd : coal.Nodup)
+    (hbelow : ∀ s ∈ samp, ∃ c ∈ coal, s < c) :
+    skyrideLogProb (List.replicate coal.length θ₀) (samp ++ coal) = constantLogProb θ₀ (samp ++ coal) := by
+  obtain ⟨a, b, ha, hb⟩ := exists_window (samp ++ coal ++ [])
+  rw [skyride_eq_kingman _ (List.Perm.refl _) (List.Perm.refl _) hlen a b ha hb (by simp) hnd,
+    constant_eq_kingman θ₀ (List.Perm.refl _) (List.Perm.refl _) hlen a b ha hb]
+  unfold kingman
+  -- below or at some coalescent time the step function reads θ₀
+  have hin : ∀ x, (∃ c ∈ coal, x ≤ c) → stepN (List.replicate coal.length θ₀) coal x = θ₀ := by
+    intro x ⟨c, hc, hxc⟩
+    unfold stepN
+    apply List.getD_replicate
+    apply List.countP_lt_length_iff.mpr
+    exact ⟨c, hc, by simpa using hxc⟩
+  congr 1
+  · congr 2
+    funext x
+    by_cases hx : ∃ c ∈ coal, x ≤ c
+    · rw [hin x hx]; rfl
+    · -- beyond every coalescent time exactly one lineage is left
+      have hall : ∀ c ∈ coal, c < x := fun c hc => not_le.mp (fun h => hx ⟨c, hc, h⟩)
+      have hk : lineagesAt samp coal x = 1 := by
+        unfold lineagesAt
+        have h1 : coal.countP (fun c => decide (c < x)) = coal.length :=
+          List.countP_eq_length.mpr (fun c hc => by simpa using hall c hc)
+        have h2 : samp.countP (fun s => decide (s < x)) = samp.length :=
+          List.countP_eq_length.mpr (fun s hs => by
+            obtain ⟨c, hc, hsc⟩ := hbelow s hs
+            simpa using lt_trans hsc (hall c hc))
+        rw [h1, h2, hlen]; push_cast; ring
+      rw [hk, choose2_one]; simp
+  · congr 1
+    apply List.map_congr_left
+    intro c hc
+    rw [hin c ⟨c, hc, le_refl _⟩]; rfl
+
+example : skyrideLogProb (List.replicate 2 7) (([0, 0, 1] : List ℝ) ++ [2, 3])
+    = constantLogProb 7 ([0, 0, 1] ++ [2, 3]) :=
+  skyride_all_equal_is_constant 7 (samp := [0, 0, 1]) (coal := [2, 3]) rfl (by simp)
+    (by intro s hs; exact ⟨2, by simp, by simp at hs; rcases hs with rfl | rfl <;> norm_num⟩)
 
 /-! ## scaling law -/
 
